@@ -1513,6 +1513,27 @@ def memory_presence_by_membership(ctx: Ctx, rule: str) -> int:
     return n
 
 
+def _exists_arg(ctx: Ctx, f: Func, e: ast.AST, depth: int = 0) -> Optional[ast.AST]:
+    """the expression whose existence the call `e` asks about: `os.path.exists(X)` (lexists / isfile / islink), directly or through a thin package helper
+    whose body returns such a call on its parameter (`def _exists(p): return os.path.exists(p)`)"""
+    if not (isinstance(e, ast.Call) and e.args):
+        return None
+    fn = unparse(e.func)
+    if fn.split(".")[-1] in ("exists", "lexists", "isfile", "islink") and "path" in fn:
+        return e.args[0]
+    if depth < 2:
+        fs, _ = ctx.prog.callees(f, e, ctx._types)
+        if len(fs) == 1 and fs[0].module.name.startswith("dds"):
+            g = fs[0]
+            body = [st for st in g.node.body if not (isinstance(st, ast.Expr) and isinstance(st.value, ast.Constant))]
+            ps = [p_ for p_ in g.positional_params() if p_ not in ("self", "cls")]
+            if len(body) == 1 and isinstance(body[0], ast.Return) and body[0].value is not None and len(ps) == 1 and len(e.args) == 1:
+                inner = _exists_arg(ctx, g, body[0].value, depth + 1)
+                if isinstance(inner, ast.Name) and inner.id == ps[0]:
+                    return e.args[0]
+    return None
+
+
 def reads_after_presence(ctx: Ctx, v: LocalView, rule: str) -> int:
     """The reading methods of the local store open a file (fetch_blob: the metadata, the blob) or resolve a link (fetch_paths) only under
     conditions that imply that this very name exists: a reader that arrives between two publications of a writer (blob renamed, metadata
@@ -1529,9 +1550,10 @@ def reads_after_presence(ctx: Ctx, v: LocalView, rule: str) -> int:
         f = v.func(method)
 
         def atom_name(e: ast.AST) -> Optional[str]:
-            if isinstance(e, ast.Call) and e.args and unparse(e.func).split(".")[-1] in ("exists", "lexists", "isfile", "islink") and "path" in unparse(e.func):
-                t = m.expr_terms.get(id(e.args[0]))
-                return "exists:" + (show(t) if t is not None else unparse(e.args[0]))
+            a_ = _exists_arg(ctx, f, e)
+            if a_ is not None:
+                t = m.expr_terms.get(id(a_))
+                return "exists:" + (show(t) if t is not None else unparse(a_))
             return None
         seen = set()
         for e in effs:
@@ -1618,9 +1640,10 @@ def presence_requires_all(ctx: Ctx, v: LocalView, rule: str) -> int:
     m.expr_terms = hb_terms
 
     def atom_name(e: ast.AST) -> Optional[str]:
-        if isinstance(e, ast.Call) and e.args and unparse(e.func).split(".")[-1] in ("exists", "lexists", "isfile", "islink") and "path" in unparse(e.func):
-            t = hb_terms.get(id(e.args[0]))
-            return "exists:" + (show(t) if t is not None else unparse(e.args[0]))
+        a_ = _exists_arg(ctx, f, e)
+        if a_ is not None:
+            t = hb_terms.get(id(a_))
+            return "exists:" + (show(t) if t is not None else unparse(a_))
         return None
     cfg = cfg_of(f)
     n = 0
